@@ -49,6 +49,9 @@ SCRIPTS = {
     # the first update has only a job group, so the second update's job ids start at 1
     'u1_groups_only': [('new_update', 'u1', 't1', 0, 1), ('add_groups', 'u1', 1, [G(1, parent_abs=0)]), ('commit_tail', 'u1', 1)],
     'u2_parentless_job_in_g1': [('new_update', 'u1', 't2', 1, 0), ('add_jobs', 'u1', 2, [J(1, abs_group=1)]), ('commit', 'u1', 2)],
+    # update 1 has a parentless ALWAYS-RUN job (inserted Ready by the front end, never cancellable) next to a parentless ordinary one
+    'u1_roots_ar': [('new_update', 'u1', 't1', 2, 1), ('add_groups', 'u1', 1, [G(1, parent_abs=0)]),
+                    ('add_jobs', 'u1', 1, [J(1, group=1, always_run=True), J(2, group=1)]), ('commit_tail', 'u1', 1)],
     'u1_single': [('new_update', 'u1', 't1', 1, 0), ('add_jobs', 'u1', 1, [J(1, abs_group=0)]), ('commit_tail', 'u1', 1)],
     # update 2 shapes (explored step by step)
     'u2_child_of_1': [('new_update', 'u1', 't2', 1, 0), ('add_jobs', 'u1', 2, [J(1, abs_parents=[1], abs_group=0)]), ('commit', 'u1', 2)],
